@@ -276,7 +276,7 @@ def json_s(x):
     return json.dumps(x)
 
 
-@rule('C10a', props=['C10', 'C13', 'C01'], floor=2, configs=('all', 'default'))
+@rule('C10a', props=['C10', 'C13', 'C01', 'C04'], floor=2, configs=('all', 'default'))
 def c10a_clone_from_clears(prog):
     """Archetypes::clone_from: every path to return runs the pass that clears (clear_detached) each
     destination archetype that is not the image of a source archetype (test: `!set_of_images.contains`);
@@ -450,6 +450,7 @@ def a2_free_list_provenance(prog):
         E = pathsem.analyse(prog, f)
         n = 0
         bad = None
+        bad_gen = None
         ORDERED = ('iter', 'into_iter', 'copied', 'cloned', 'by_ref', 'map', 'enumerate', 'inspect', 'peekable', 'fuse')
         for p in E.paths:
             for e in p.calls(lambda e: e['name'] == 'serialize_element'):
@@ -461,8 +462,30 @@ def a2_free_list_provenance(prog):
                     root, kinds = pathsem.iter_chain(t[1])
                     if pathsem.is_field_of(root, 'entity::allocator::Allocator', fi) and all(k in ORDERED for k in kinds):
                         ok = True
+                # the identifier written is (index, generation of the slot AT that index)
+                if ok and v is not None:
+                    S = pathsem.strip_refs
+                    parts = None
+                    if isinstance(v, tuple) and v[0] == 'agg' and v[1].endswith('entity::identifier::Identifier') and len(v[4]) == 2:
+                        ii = adt_field_index(prog, 'entity::identifier::Identifier', 'index')
+                        parts = (v[4][ii], v[4][1 - ii])
+                    elif isinstance(v, tuple) and v[0] == 'call' and v[1].endswith('entity::identifier::Identifier::new') and len(v[2]) == 2:
+                        parts = (v[2][0], v[2][1])
+                    gs = adt_field_index(prog, 'Slot', 'generation')
+                    slots_i = names.index('slots')
+                    good = False
+                    if parts is not None:
+                        idx, gen = S(parts[0]), parts[1]
+                        g = S(gen)
+                        if pathsem.is_field_of(g, 'Slot', gs):
+                            lk = [t for t in pathsem.subterms(g) if t[0] == 'call' and t[1].rsplit('::', 1)[-1] in ('get_unchecked', 'index', 'get') and len(t[2]) == 2]
+                            good = any(S(t[2][1]) == idx and pathsem.mentions(t[2][0], lambda u: pathsem.is_field_of(u, 'entity::allocator::Allocator', slots_i)) for t in lk)
+                    if not good:
+                        bad_gen = bad_gen or e
                 if not ok:
                     bad = bad or e
+        if bad_gen is not None and bad is None:
+            r.viol('A2', 'serialize/free-generation', f.loc(bad_gen['ln']), 'a freed identifier is serialised with a generation that is not the generation of the slot at its own index: after a round trip the slot\'s generation is rolled back or swapped and an identifier already issued can be issued again')
         lens = [e for p in E.paths for e in p.calls(lambda e: e['name'] == 'serialize_seq')]
         if E.truncated or not n or bad is not None:
             r.viol('A2', 'serialize/free-not-iterated', f.loc(bad['ln'] if bad else None), 'the serialised free list is not produced by iterating the allocator\'s free queue in queue order')
